@@ -145,15 +145,15 @@ def helper_kind(repo: Repo, name: str, depth: int = 0) -> Dict[str, Any]:
                 out["key"] = "offset"
         if isinstance(n, ast.Attribute) and n.attr == "overlap":
             out["tree"] = True
-        if isinstance(n, ast.Compare) and any(isinstance(o, ast.In) for o in n.ops) \
+        if isinstance(n, ast.Compare) and any(isinstance(o, (ast.In, ast.NotIn)) for o in n.ops) \
                 and mentions_range(n.comparators[0]):
-            out["sel"] = "at"
+            out["sel"] = "at"          # (which way round the test is used is scan_at's business)
         if isinstance(n, ast.Call) and attr_path(n.func) in (("max",), ("min",)):
             out["sel"] = out["sel"] or "on"
         if isinstance(n, ast.Attribute) and n.attr in ("end", "length"):
             out["sel"] = out["sel"] or "on"
         if isinstance(n, ast.Compare) and any(isinstance(o, (ast.Lt, ast.LtE, ast.Gt, ast.GtE)) for o in n.ops) \
-                and mentions_range(n) and not any(isinstance(o, ast.In) for o in n.ops):
+                and mentions_range(n) and not any(isinstance(o, (ast.In, ast.NotIn)) for o in n.ops):
             on_by_cmp = True
         if isinstance(n, ast.Call):
             p = attr_path(n.func)
